@@ -5,7 +5,7 @@ import ast
 from typing import Optional
 
 from ..core import Ctx
-from ..model import body_stmts, dotted, kwarg, norm, walk_no_nested
+from ..model import body_stmts, canon, dotted, kwarg, norm, walk_no_nested
 from . import ilp, nbk
 from .c01 import rule_nullable_index
 from .c04 import array_layout
@@ -93,8 +93,8 @@ def rule_alignment_level(ctx: Ctx):
         r1 = [s for s in ifs[0].body if isinstance(s, ast.Return)]
         r2 = [s for s in ifs[0].orelse if isinstance(s, ast.Return)]
         ok = bool(r1) and norm(r1[0].value) == f"{an}.continuum.{AVG}" and bool(r2) and \
-            norm(r2[0].value) in (f"sum((unitary_alignment.nb_units for unitary_alignment in {an})) / {an}.num_annotators",
-                                  f"sum((unitary_alignment.nb_units for unitary_alignment in {an}.unitary_alignments)) / {an}.num_annotators")
+            canon(r2[0].value) in {canon(f"sum((u.nb_units for u in {an})) / {an}.num_annotators"),
+                                   canon(f"sum((u.nb_units for u in {an}.unitary_alignments)) / {an}.num_annotators")}
     ctx.check(ok, "R-C03-3", a, ifs[0] if ifs else None,
               "mean units per annotator: the continuum's when attached, else (number of real units) / (number of slots)",
               bad_detail="Alignment.avg_num_annotations_per_annotator deviates from continuum.avg... / sum(nb_units)/num_annotators", key="avg")
@@ -107,10 +107,10 @@ def rule_alignment_level(ctx: Ctx):
                                                         "len([u for _, u in self._n_tuple if u is not None])"})):
         g = ctx.fn(qn, "R-SUP")
         r = _ret(g)
-        got = norm(r) if r is not None else None
+        got = canon(r) if r is not None else None
         if got is not None and g.self_name != "self":
             got = got.replace(g.self_name + ".", "self.")
-        ctx.check(got in accepted, "R-SUP", g, r, f"{qn} == {got}", bad_detail=f"{qn} returns `{got}`; specification: {sorted(accepted)}", key="accessor")
+        ctx.check(got in {canon(a) for a in accepted}, "R-SUP", g, r, f"{qn} == {got}", bad_detail=f"{qn} returns `{got}`; specification: {sorted(accepted)}", key="accessor")
 
 
 def rule_fast_cache(ctx: Ctx):
